@@ -128,6 +128,7 @@ func runSender(t *testing.T, tw *trace.Writer, c *scase, idx int, res *vh.Result
 			}
 			close(ch)
 			tw.Emit(map[string]any{"ev": "req", "id": id})
+			tw.Emit(map[string]any{"ev": "ret", "id": id}) // this driver starts at the sender's queue: there is no caller to hold
 			st := sender.Stream{Ctx: sctx, Buf: ch, Cb: func(errs []error) {
 				has := false
 				for _, e := range errs {
